@@ -36,15 +36,72 @@ pub fn bin(profile: &str) -> Option<String> {
 /// Run the command; a run that exceeds 30 s of wall-clock is repeated once with a 180 s limit, so that a starved
 /// machine is not mistaken for a hanging command (a 3 ms process that is still running after 180 s is hanging).
 pub fn run(bin: &str, rule_text: &str, channel: &Channel) -> Result<CliOut, String> {
-    let first = run_limited(bin, rule_text, channel, 30)?;
+    run_env(bin, rule_text, channel, None)
+}
+
+/// A perturbed process environment: cleared, then exactly these variables; another working directory.
+#[derive(Debug, Clone)]
+pub struct Env {
+    pub vars: Vec<(String, String)>,
+    pub cwd: String,
+}
+
+pub fn run_env(bin: &str, rule_text: &str, channel: &Channel, env: Option<&Env>) -> Result<CliOut, String> {
+    let first = run_limited(bin, rule_text, channel, 30, env)?;
     if first.timed_out {
-        return run_limited(bin, rule_text, channel, 180);
+        return run_limited(bin, rule_text, channel, 180, env);
     }
     Ok(first)
 }
 
-fn run_limited(bin: &str, rule_text: &str, channel: &Channel, limit_s: u64) -> Result<CliOut, String> {
+/// Every ALL-CAPS identifier in the binary's bytes (3-40 characters): the names under which a program usually looks up
+/// environment variables are string constants of the program, so a variable the code consults is among them.  Names
+/// that configure the dynamic loader or the allocator rather than the program are left out.
+pub fn candidate_env_names(bin: &str) -> Vec<String> {
+    let bytes = match std::fs::read(bin) {
+        Ok(b) => b,
+        Err(_) => return vec![],
+    };
+    // Rust string constants are neither NUL-terminated nor separated from their neighbours, so no word boundary is
+    // demanded: every maximal run of [A-Z0-9_] that starts with a letter and has 3-40 characters is a candidate
+    let mut out = std::collections::BTreeSet::new();
+    let mut i = 0;
+    let is_id = |c: u8| c.is_ascii_uppercase() || c.is_ascii_digit() || c == b'_';
+    while i < bytes.len() {
+        if bytes[i].is_ascii_uppercase() {
+            let mut j = i;
+            while j < bytes.len() && is_id(bytes[j]) {
+                j += 1;
+            }
+            if j - i >= 3 && j - i <= 40 {
+                let name = String::from_utf8_lossy(&bytes[i..j]).to_string();
+                let skip = name.starts_with("LD_") || name.starts_with("MALLOC_") || name.starts_with("GLIBC_") || name == "RUST_MIN_STACK" || name == "PATH";
+                if !skip {
+                    out.insert(name.trim_end_matches('_').to_string());
+                    // glued to a following CamelCase word ("JSONLOGIC_COMPAT" + "AddrNotAvailable"): the last capital is not ours
+                    if j < bytes.len() && bytes[j].is_ascii_lowercase() && j - i >= 4 {
+                        out.insert(name[..name.len() - 1].trim_end_matches('_').to_string());
+                    }
+                    out.insert(name);
+                }
+            }
+            i = j.max(i + 1);
+        } else {
+            i += 1;
+        }
+    }
+    out.into_iter().take(30000).collect()
+}
+
+fn run_limited(bin: &str, rule_text: &str, channel: &Channel, limit_s: u64, env: Option<&Env>) -> Result<CliOut, String> {
     let mut cmd = Command::new(bin);
+    if let Some(e) = env {
+        cmd.env_clear();
+        for (k, v) in &e.vars {
+            cmd.env(k, v);
+        }
+        cmd.current_dir(&e.cwd);
+    }
     cmd.arg(rule_text);
     let stdin_text: Option<(&str, Option<(usize, u64)>)> = match channel {
         Channel::Arg(d) => {
